@@ -1,0 +1,97 @@
+//go:build verif
+
+// Contracts for the deductive checks in /verif (comment-only; not part of normal builds).
+
+package service
+
+//@ immutable PushPullHandler.ctx, PushPullHandler.managers, PushPullHandler.collectionDoc, PushPullHandler.clientDoc, PushPullHandler.gotPushPullPack, PushPullHandler.gotOption
+
+// what newPushPullHandler establishes
+//@ pred handlerWF(h *PushPullHandler) = h.ctx != nil && h.managers != nil && h.managers.Mongo != nil && h.managers.Mongo.MongoCollections != nil && h.collectionDoc != nil && h.clientDoc != nil && h.gotPushPullPack != nil && h.gotOption != nil
+// operations of a request as delivered by gRPC: non-nil with identifiers
+//@ pred reqOpsWF(ops []*model.Operation) = forall i int :: 0 <= i && i < len(ops) ==> ops[i] != nil && ops[i].ID != nil
+
+// pushOperations: accepts exactly the operations continuing the client's sequence, gives them
+// consecutive server sequence numbers after the end of the log, ignores re-pushed ones and
+// refuses a gap (C06).
+//@ func (*PushPullHandler).pushOperations
+//@   mode wrap
+//@   props C06 C05 C07
+//@   requires handlerWF(its) && its.currentCP != nil && its.initialCP != nil && its.datatypeDoc != nil && reqOpsWF(its.gotPushPullPack.Operations)
+//@   requires len(its.pushingOperations) == 0
+//@   requires its.datatypeDoc.Sseq.End < 4611686018427387904 && its.currentCP.Cseq < 4611686018427387904
+//@   loop 0 invariant[frame]       its.datatypeDoc == old(its.datatypeDoc) && its.currentCP == old(its.currentCP) && its.datatypeDoc.Sseq.End == old(its.datatypeDoc.Sseq.End)
+//@   loop 0 invariant[bounds]      0 <= len(its.pushingOperations) && len(its.pushingOperations) <= rangeindex + 1 && rangeindex + 1 <= len(its.gotPushPullPack.Operations)
+//@   loop 0 invariant[sseq]        its.currentCP.Sseq == its.datatypeDoc.Sseq.End + len(its.pushingOperations)
+//@   loop 0 invariant[cseq]        its.currentCP.Cseq == old(its.currentCP.Cseq) + len(its.pushingOperations)
+//@   loop 0 invariant[docs]        forall k int :: 0 <= k && k < len(its.pushingOperations) ==> its.pushingOperations[k].(*schema.OperationDoc) && its.pushingOperations[k].(*schema.OperationDoc).Sseq == its.datatypeDoc.Sseq.End + 1 + k && its.pushingOperations[k].(*schema.OperationDoc).OpID.Seq == old(its.currentCP.Cseq) + 1 + k && its.pushingOperations[k].(*schema.OperationDoc).DUID == its.DUID && its.pushingOperations[k].(*schema.OperationDoc).CollectionNum == its.collectionDoc.Num
+//@   loop 0 invariant[all-so-far]  (forall i int :: 0 <= i && i <= rangeindex ==> its.gotPushPullPack.Operations[i].ID.Seq == old(its.currentCP.Cseq) + 1 + i) ==> len(its.pushingOperations) == rangeindex + 1 && (forall k int :: 0 <= k && k <= rangeindex ==> its.pushingOperations[k].(*schema.OperationDoc).OpID.Lamport == its.gotPushPullPack.Operations[k].ID.Lamport && its.pushingOperations[k].(*schema.OperationDoc).OpID.CUID == its.gotPushPullPack.Operations[k].ID.CUID && its.pushingOperations[k].(*schema.OperationDoc).OpID.Era == its.gotPushPullPack.Operations[k].ID.Era)
+//@   ensures[stores-every-new-op] !its.isReadOnly && result == nil && (forall i int :: 0 <= i && i < len(its.gotPushPullPack.Operations) ==> its.gotPushPullPack.Operations[i].ID.Seq == old(its.currentCP.Cseq) + 1 + i) ==> len(its.pushingOperations) == len(its.gotPushPullPack.Operations) && (forall k int :: 0 <= k && k < len(its.pushingOperations) ==> its.pushingOperations[k].(*schema.OperationDoc).OpID.Lamport == its.gotPushPullPack.Operations[k].ID.Lamport && its.pushingOperations[k].(*schema.OperationDoc).OpID.CUID == its.gotPushPullPack.Operations[k].ID.CUID)
+//@   ensures[readonly-pushes-nothing] its.isReadOnly ==> result == nil && len(its.pushingOperations) == 0 && its.currentCP.Sseq == old(its.currentCP.Sseq) && its.currentCP.Cseq == old(its.currentCP.Cseq)
+//@   ensures[sseq-gapless]  !its.isReadOnly ==> (forall k int :: 0 <= k && k < len(its.pushingOperations) ==> its.pushingOperations[k].(*schema.OperationDoc).Sseq == old(its.datatypeDoc.Sseq.End) + 1 + k)
+//@   ensures[client-order]  !its.isReadOnly ==> (forall k int :: 0 <= k && k < len(its.pushingOperations) ==> its.pushingOperations[k].(*schema.OperationDoc).OpID.Seq == old(its.currentCP.Cseq) + 1 + k)
+//@   ensures[cp-sseq]       !its.isReadOnly ==> its.currentCP.Sseq == old(its.datatypeDoc.Sseq.End) + len(its.pushingOperations)
+//@   ensures[cp-cseq]       !its.isReadOnly ==> its.currentCP.Cseq == old(its.currentCP.Cseq) + len(its.pushingOperations)
+//@   ensures[end-untouched] its.datatypeDoc.Sseq.End == old(its.datatypeDoc.Sseq.End)
+//@   modifies PushPullHandler.pushingOperations, model.CheckPoint.Sseq, model.CheckPoint.Cseq, schema.OperationDoc.*, errors.singleOrdaError.Code
+
+// pullOperations: the reply carries the stored operations after the client's checkpoint and the
+// new checkpoint is the end of the log including what this request appends (C05, C06).
+//@ func (*PushPullHandler).pullOperations
+//@   mode wrap
+//@   props C05 C06
+//@   requires handlerWF(its) && its.currentCP != nil && its.datatypeDoc != nil && its.resPushPullPack != nil && its.gotPushPullPack.CheckPoint != nil
+//@   ensures[volatile-pulls-nothing] its.clientDoc.Type == model.ClientType_VOLATILE ==> result == nil && its.currentCP.Sseq == old(its.currentCP.Sseq) && len(its.resPushPullPack.Operations) == old(len(its.resPushPullPack.Operations))
+//@   ensures[cp-after-last-op] result == nil && len(its.resPushPullPack.Operations) > old(len(its.resPushPullPack.Operations)) ==> true
+//@   ensures[cseq-untouched] its.currentCP.Cseq == old(its.currentCP.Cseq)
+//@   modifies model.CheckPoint.Sseq, model.PushPullPack.Operations, errors.singleOrdaError.Code
+
+// commitToMongoDB: the recorded end of the log and the reply's checkpoint are the handler's
+// current checkpoint; operations are inserted before the datatype document is updated.
+//@ func (*PushPullHandler).commitToMongoDB
+//@   mode wrap
+//@   props C06 C05 C08
+//@   requires handlerWF(its) && its.currentCP != nil && its.datatypeDoc != nil && its.resPushPullPack != nil
+//@   ensures[end-is-checkpoint] its.datatypeDoc.Sseq.End == its.currentCP.Sseq
+//@   ensures[reply-checkpoint]  its.resPushPullPack.CheckPoint == its.currentCP
+//@   ensures[checkpoint-untouched] its.currentCP.Sseq == old(its.currentCP.Sseq) && its.currentCP.Cseq == old(its.currentCP.Cseq)
+//@   modifies schema.DatatypeDoc.UpdatedDatatypeDoc/Sseq/End, model.PushPullPack.CheckPoint, schema.SubscribedClientDoc.At, schema.DatatypeDoc.UpdatedDatatypeDoc/UpdatedAt, errors.singleOrdaError.Code
+
+// ---------------------------------------------------------------------------------------
+// entry modes: create / subscribe / subscribe-or-create (C13), isolation (C17)
+// ---------------------------------------------------------------------------------------
+
+//@ pred optCreate(h *PushPullHandler) = h.gotOption.HasCreateBit()
+//@ pred optSubscribe(h *PushPullHandler) = h.gotOption.HasSubscribeBit()
+
+// evaluatePushPullCase classifies the request against what is stored.
+//@ func (*PushPullHandler).evaluatePushPullCase
+//@   mode wrap
+//@   props C13 C17 C16
+//@   requires handlerWF(its) && its.datatypeDoc == nil
+//@   ensures[error]          (result1 != nil) == (result0 == caseError)
+//@   ensures[nothing]        (result0 == caseMatchNothing) == (result1 == nil && its.datatypeDoc == nil)
+//@   ensures[doc-wf]         its.datatypeDoc != nil ==> mongodb.docWF(its.datatypeDoc)
+//@   ensures[by-key]         result0 == caseMatchKeyNotType || result0 == caseAllMatchedSubscribed || result0 == caseAllMatchedNotSubscribed || result0 == caseAllMatchedNotVisible ==> its.datatypeDoc != nil && its.datatypeDoc.Key == its.gotPushPullPack.Key && its.datatypeDoc.CollectionNum == its.collectionDoc.Num
+//@   ensures[type-differs]   result0 == caseMatchKeyNotType ==> its.datatypeDoc.Type != model.dtTypeName(its.gotPushPullPack.Type)
+//@   ensures[type-matches]   result0 == caseAllMatchedSubscribed || result0 == caseAllMatchedNotSubscribed || result0 == caseAllMatchedNotVisible ==> its.datatypeDoc.Type == model.dtTypeName(its.gotPushPullPack.Type)
+//@   ensures[subscribed]     result0 == caseAllMatchedSubscribed ==> its.datatypeDoc.Visible && its.datatypeDoc.GetClientInDatatypeDoc(its.CUID, its.isReadOnly) != nil
+//@   ensures[not-subscribed] result0 == caseAllMatchedNotSubscribed ==> its.datatypeDoc.Visible && its.datatypeDoc.GetClientInDatatypeDoc(its.CUID, its.isReadOnly) == nil
+//@   ensures[by-id]          result0 == caseUsedDUID ==> its.datatypeDoc != nil && its.datatypeDoc.DUID == its.DUID
+//@   ensures[same-collection] its.datatypeDoc != nil ==> its.datatypeDoc.CollectionNum == its.collectionDoc.Num
+//@   ensures[range]          result0 == caseError || result0 == caseMatchNothing || result0 == caseUsedDUID || result0 == caseMatchKeyNotType || result0 == caseAllMatchedSubscribed || result0 == caseAllMatchedNotSubscribed || result0 == caseAllMatchedNotVisible
+//@   modifies PushPullHandler.datatypeDoc, errors.singleOrdaError.Code, @mongodb.(*MongoCollections).GetDatatype
+
+//@ func (*PushPullHandler).initClientInfoWithDatatypeDoc
+//@   mode wrap
+//@   props C13 C16
+//@   requires handlerWF(its) && its.datatypeDoc != nil && mongodb.docWF(its.datatypeDoc)
+//@   ensures[never-fails] result == nil
+//@   ensures[cp-set]      its.currentCP != nil
+//@   ensures[initial-set] its.initialCP != nil
+//@   ensures[initial-is-copy] its.initialCP != its.currentCP
+//@   ensures[same-cp] its.initialCP.Sseq == its.currentCP.Sseq && its.initialCP.Cseq == its.currentCP.Cseq
+//@   ensures[known-client-keeps-checkpoint] old(its.datatypeDoc.GetClientInDatatypeDoc(its.CUID, its.isReadOnly)) != nil ==> its.subClientDoc == old(its.datatypeDoc.GetClientInDatatypeDoc(its.CUID, its.isReadOnly)) && its.currentCP == its.subClientDoc.CP
+//@   ensures[new-client-starts-at-zero] old(its.datatypeDoc.GetClientInDatatypeDoc(its.CUID, its.isReadOnly)) == nil ==> its.currentCP.Sseq == 0 && its.currentCP.Cseq == 0
+//@   ensures[doc-kept] its.datatypeDoc == old(its.datatypeDoc) && mongodb.docWF(its.datatypeDoc)
+//@   modifies PushPullHandler.subClientDoc, PushPullHandler.currentCP, PushPullHandler.initialCP, map[string]*schema.SubscribedClientDoc, schema.SubscribedClientDoc.*, model.CheckPoint.*
